@@ -264,9 +264,10 @@ class C19(Monitor):
             words, text = gen_words(rnd, "XYZ", rnd.randint(0, 3))
             cmd = "G28" + text
         else:
-            words, text = gen_words(rnd, "XYIJEFXYIJXYZ", rnd.randint(2, 6))
+            words, text = gen_words(rnd, "XYIJEFXYIJXYZPS", rnd.randint(2, 6))
             cmd = rnd.choice(["G2", "G3"]) + text
-        return dict(t="handler", pre=pre, cmd=cmd, words=words, mode=rnd.choice(["plain", "plain", "disabled", "covered"]))
+        return dict(t="handler", pre=pre, cmd=cmd, words=words, mode=rnd.choice(["plain", "plain", "disabled", "covered"]),
+                    twice=rnd.random() < 0.2)
 
     def check_case(self, case):
         stats = collections.Counter()
@@ -338,6 +339,11 @@ class C19(Monitor):
                     return []
             core.gcode(it["cmd"])
             B.execute(it["cmd"])
+            if it.get("twice") and code in ("G0", "G1"):
+                # the very same line again (under G91 it moves again): every line is read afresh
+                core.gcode(it["cmd"])
+                B.execute(it["cmd"])
+                stats["handler_same_line_twice"] += 1
         except Exception as exc:  # noqa: B902
             return [("handler-raised", repr(exc))]
         if code in ("G2", "G3") and not B.moves[-1]["src"] == it["cmd"]:
@@ -356,6 +362,15 @@ class C19(Monitor):
             fails.append(("handler-ignores-last-value", "tracked E = %r, reference %r" % (hs["e"], B.e)))
         if abs(hs["feed"] - B.feed) > 1e-9 * max(1.0, abs(B.feed)):
             fails.append(("handler-ignores-last-value", "tracked feed rate = %r, reference %r" % (hs["feed"], B.feed)))
+        if code in ("G2", "G3") and core.arc.log and "R" not in [l for l, val in words if val is not None] and "G91" not in it["pre"]:
+            # the centre offsets the arc was planned with are the last I and J values given (a missing one is 0), whatever other
+            # words the command carries
+            last = dict((l, val) for l, val in words if val is not None)
+            a = core.arc.log[-1][0]
+            stats["handler_arc_centre_words_checked"] += 1
+            if len(a) >= 4 and (abs(a[2] - last.get("I", 0.0)) > 1e-9 or abs(a[3] - last.get("J", 0.0)) > 1e-9):
+                fails.append(("handler-ignores-last-value", "the arc was planned with I=%r J=%r, the words say I=%r J=%r"
+                              % (a[2], a[3], last.get("I", 0.0), last.get("J", 0.0))))
         return fails[:1]
 
     def thresholds(self, tier):
